@@ -71,8 +71,9 @@ theorem OpFrame.observations {w w' : WM} {id : Nat} (hf : OpFrame w w' id) (hok 
 /-! ## `setCell`: overwrite one value of one row -/
 
 def setCell (w : WM) (ai idx ci : Nat) (v : Val) : WM :=
-  w.setArch ai { w.arch ai with rows := (w.arch ai).rows.set idx
-    ⟨((w.arch ai).rows.getD idx default).ent, ((w.arch ai).rows.getD idx default).vals.set ci v⟩ }
+  let a := w.arch ai
+  let row := a.rows.getD idx default
+  w.setArch ai { a with rows := a.rows.set idx { row with vals := row.vals.set ci v } }
 
 theorem setCell_sameTable (w : WM) (ai idx ci : Nat) (v : Val) : SameTable w (setCell w ai idx ci v) :=
   sameTable_setArch _ _ _
@@ -94,7 +95,7 @@ theorem setCell_mask (w : WM) (ai aj idx ci : Nat) (v : Val) :
     · unfold setCell; rw [arch_setArch_same _ _ _ hlt]; exact ⟨rfl, rfl⟩
     · unfold setCell WM.setArch
       simp only [arch_def, List.set_eq_of_length_le (Nat.le_of_not_lt hlt)]
-      exact ⟨rfl, rfl⟩
+      trivial
   · rw [setCell_arch_ne _ _ _ _ _ _ hj]; exact ⟨rfl, rfl⟩
 
 /-- rows after `setCell`: only row `(ai, idx)` changes, and only in its values -/
@@ -111,8 +112,8 @@ theorem setCell_rows (w : WM) (ai idx ci : Nat) (v : Val) (aj j : Nat) :
       by_cases hji : idx = j
       · subst hji
         by_cases hil : idx < (w.arch aj).rows.length
-        · simp [hil, List.getD_eq_getElem?_getD, List.getElem?_eq_getElem hil]
-        · simp [hil, List.getElem?_eq_none_iff.mpr (Nat.le_of_not_lt hil)]
+        · simp [hil, List.getD_eq_getElem?_getD]
+        · simp [hil]
       · simp [hji, Ne.symm hji]
     · have h0 : (w.arch aj).rows = [] := by rw [arch_of_ge w aj (Nat.le_of_not_lt hlt)]
       have h1 : ((setCell w aj idx ci v).arch aj).rows = [] := by
@@ -241,8 +242,9 @@ theorem allocId_grow (w : WM) (he : w.empty = 0) :
   unfold WM.allocId; rw [if_pos he]
 
 theorem allocId_pop (w : WM) (he : w.empty ≠ 0) (s : Slot) (hs : w.slots[w.next]? = some s) :
-    w.allocId = ({ w with slots := w.slots.set w.next ⟨w.next, s.ver⟩, locs := w.locs.set w.next ⟨none, 0⟩,
-      next := s.idf, empty := w.empty - 1 }, ⟨w.next, s.ver, w.worldId⟩) := by
+    w.allocId =
+      ({ w with slots := w.slots.set w.next ⟨w.next, s.ver⟩, locs := w.locs.set w.next ⟨none, 0⟩,
+                next := s.idf, empty := w.empty - 1 }, ⟨w.next, s.ver, w.worldId⟩) := by
   unfold WM.allocId; rw [if_neg he]; simp only [hs]
 
 theorem allocId_bad (w : WM) (he : w.empty ≠ 0) (hs : w.slots[w.next]? = none) :
@@ -310,7 +312,7 @@ theorem allocId_isValid (w : WM) (x : Handle) (hne : x.id ≠ (w.allocId).2.id) 
       simp only
       rw [List.getElem?_set_ne (Ne.symm hne)]
 
-theorem allocId_opFrame {w : WM} (hok : RowsOK w) (hfresh : NotInRow w (w.allocId).2.id) :
+theorem allocId_opFrame {w : WM} (hok : RowsOK w) :
     OpFrame w (w.allocId).1 (w.allocId).2.id := by
   refine ⟨?_, fun x hne => allocId_isValid w x hne⟩
   intro aj j r hr hne
